@@ -461,7 +461,7 @@ func c23Gen(rng *rand.Rand, tier string, w *bufio.Writer) {
 					fmt.Fprintf(w, "mig %s v=%d d=%d r=%d fault=none pre=%s %s\n", root, c[0], c[1], c[2], pre, tail)
 				}
 				if pre != "junk" {
-					if tier == "thorough" || ci < 18 {
+					if tier == "thorough" || ci < 15 {
 						fmt.Fprintf(w, "mig %s v=1 d=1 r=0 fault=write:3 pre=%s %s\n", root, pre, tail)
 					}
 					fmt.Fprintf(w, "mig %s v=1 d=1 r=0 fault=dropkey pre=%s %s\n", root, pre, tail)
@@ -497,13 +497,16 @@ func c23Gen(rng *rand.Rand, tier string, w *bufio.Writer) {
 				faults = append(faults, fmt.Sprintf("unlink:%d", k))
 			}
 		}
-		if tier != "thorough" && !(ci < 18 && ci%3 == 1) {
-			continue // quick tier: fault runs (one strace'd process each) on six folders
+		if tier != "thorough" && !(ci < 15 && ci%3 == 1) {
+			continue // quick tier: fault runs (one strace'd process each) on five folders
 		}
 		if tier == "thorough" && ci > 8 && ci%4 != 1 {
 			continue // thorough tier: the first nine folders and every fourth after them
 		}
 		fcombos := [][3]int{{1, 1, 0}, {0, 1, 0}, {1, 0, 0}}
+		if tier != "thorough" {
+			fcombos = fcombos[:2] // every fault run is a worker process (most under strace)
+		}
 		for _, ft := range faults {
 			for _, c := range fcombos {
 				if ft == "verify" && c[0] == 0 {
@@ -781,12 +784,12 @@ func c23Run(in *bufio.Scanner, w *bufio.Writer) {
 	}
 	out := make([]string, len(lines))
 	// every migration works on its own copy of its folder: run them on a small worker pool
-	k := runtime.NumCPU() / 3
+	k := runtime.NumCPU() / 2 // most of the time goes to starting strace'd worker processes, which mostly wait
 	if k < 1 {
 		k = 1
 	}
-	if k > 6 {
-		k = 6
+	if k > 10 {
+		k = 10
 	}
 	jobs := make(chan int)
 	var wg sync.WaitGroup
